@@ -894,7 +894,7 @@ func c09Fallback(w *World, r *Report, read *ssa.Function) {
 		}
 	}
 	if asIf == nil || asTarget == nil {
-		r.Fail("C09-g", fname, "content-error test", w.relFile(read.Pos()), "no errors.As test on the primary read's error found")
+		r.Undecided("C09-g", fname, "content-error test", w.relFile(read.Pos()), "no errors.As test on the primary read's error found: how Read tells a content error from an I/O error is not recognised by this analysis")
 		return
 	}
 	// (iii) every success return other than the primary-success one passes the backup call's nil-error edge
@@ -940,7 +940,7 @@ func c09Fallback(w *World, r *Report, read *ssa.Function) {
 		}
 		r.Check(hasSeek && hasMinus1, "C09-g", fname, "backup located at last sector", w.relFile(backup.Pos()), "(device size from Seek)/lbs - 1", "backup header location is not (device size / sector size) - 1: roots "+strings.Join(lp.rootStrings(), ","))
 	} else {
-		r.Fail("C09-g", fname, "backup located at last sector", w.relFile(backup.Pos()), "cannot find the backup location argument")
+		r.Undecided("C09-g", fname, "backup located at last sector", w.relFile(backup.Pos()), "cannot find the backup location argument")
 	}
 	// (i)+(ii): content errors are wrapped in the errors.As target type
 	pf := primary.Common().StaticCallee()
